@@ -38,8 +38,77 @@ thread_local! {
     static TORDER: RefCell<VecDeque<String>> = RefCell::new(VecDeque::new());
 }
 
+fn shard_count() -> usize {
+    (std::thread::available_parallelism().map_or(1, usize::from) * 4).next_power_of_two()
+}
+
+/// one core operation on the harness-owned statics, with a fresh cache handle (used by the concurrent phase)
+fn core_op(s: &Scen, op: &[String]) -> String {
+    let pol = policy(&s.policy);
+    match s.flavour.as_str() {
+        "G" => {
+            let c = GlobalCache::new(&GMAP, &GORDER, s.limit, s.max_memory, pol, s.ttl, s.fw, &GSTATS);
+            match op[0].as_str() {
+                "get" => match c.get(&op[1]) { Some(v) => format!("some {}", v.id), None => "none".into() },
+                "insert" => { c.insert(&op[1], V { id: op[2].parse().unwrap(), size: op[3].parse().unwrap() }); "unit".into() }
+                "insert_with_memory" => { c.insert_with_memory(&op[1], V { id: op[2].parse().unwrap(), size: op[3].parse().unwrap() }); "unit".into() }
+                "clear" => { c.clear(); "unit".into() }
+                o => format!("unknown {}", o),
+            }
+        }
+        "A" => {
+            let c = AsyncGlobalCache::new(&*AMAP, &*AORDER, s.limit, s.max_memory, pol, s.ttl, s.fw, &*ASTATS);
+            match op[0].as_str() {
+                "get" => match c.get(&op[1]) { Some(v) => format!("some {}", v.id), None => "none".into() },
+                "insert" => { c.insert(&op[1], V { id: op[2].parse().unwrap(), size: op[3].parse().unwrap() }); "unit".into() }
+                "insert_with_memory" => { c.insert_with_memory(&op[1], V { id: op[2].parse().unwrap(), size: op[3].parse().unwrap() }); "unit".into() }
+                o => format!("unknown {}", o),
+            }
+        }
+        f => format!("unknown flavour {}", f),
+    }
+}
+
+fn conc_phase(s: &Scen, out: &mut Vec<String>) -> bool {
+    let mut sched = Vec::new();
+    for e in &s.csched {
+        let p: Vec<&str> = e.split(':').collect();
+        let mult = if p[2] == "all" { shard_count() } else { p[2].parse().unwrap() };
+        sched.push(sched::Ev { tid: p[0].parse().unwrap(), kind: p[1].parse().unwrap(), mult });
+    }
+    sched::install(sched);
+    let (dtx, drx) = std::sync::mpsc::channel::<(usize, Vec<String>)>();
+    let n = s.cthreads.len();
+    for (tid, ops) in s.cthreads.clone() {
+        let dtx = dtx.clone();
+        let sc = s.clone();
+        std::thread::spawn(move || {
+            sched::reset_thread();
+            sched::register(tid);
+            let res: Vec<String> = ops.iter().map(|o| core_op(&sc, o)).collect();
+            sched::register(usize::MAX);
+            let _ = dtx.send((tid, res));
+        });
+    }
+    let mut done = 0;
+    let deadline = Instant::now() + Duration::from_secs(8);
+    while done < n {
+        match drx.recv_timeout(deadline.saturating_duration_since(Instant::now())) {
+            Ok((tid, res)) => { done += 1; out.push(format!("conc_done {} {}", tid, res.join(" ; "))); }
+            Err(_) => break,
+        }
+    }
+    let (st, total) = sched::progress();
+    out.push(format!("conc_progress {} {} stuck={} mismatch={}", st, total, sched::STUCK.load(std::sync::atomic::Ordering::SeqCst), sched::MISMATCH.load(std::sync::atomic::Ordering::SeqCst)));
+    sched::uninstall();
+    if done < n { out.push(format!("conc_blocked {} of {} threads never returned", n - done, n)); return false; }
+    true
+}
+
 #[derive(Default, Clone, Debug)]
 struct Scen {
+    cthreads: Vec<(usize, Vec<Vec<String>>)>,
+    csched: Vec<String>,
     flavour: String,
     policy: String,
     limit: Option<usize>,
@@ -155,6 +224,7 @@ fn run_core(s: &Scen) -> Vec<String> {
                         out.push("result unit".into());
                     }
                     "sleep_ms" => std::thread::sleep(Duration::from_millis(op[1].parse().unwrap())),
+                    "crun" => { if !conc_phase(s, &mut out) { return out; } }
                     "dump" => dump_g(&mut out, now),
                     o => out.push(format!("unknown op {}", o)),
                 }
@@ -189,6 +259,7 @@ fn run_core(s: &Scen) -> Vec<String> {
                         out.push("result unit".into());
                     }
                     "sleep_ms" => std::thread::sleep(Duration::from_millis(op[1].parse().unwrap())),
+                    "crun" => { if !conc_phase(s, &mut out) { return out; } }
                     "dump" => dump_a(&mut out, now),
                     o => out.push(format!("unknown op {}", o)),
                 }
@@ -293,7 +364,7 @@ fn main() {
                         let r = std::panic::catch_unwind(|| subj::run(&lines));
                         let _ = tx.send(r);
                     });
-                    match rx.recv_timeout(Duration::from_secs(20)) {
+                    match rx.recv_timeout(Duration::from_secs(9)) {
                         Ok(Ok(lines)) => {
                             let mut o = stdout.lock();
                             for l in lines {
@@ -326,6 +397,12 @@ fn main() {
             "entry" => cur.entries.push((t[1].clone(), t[2].parse().unwrap(), t[3].parse().unwrap(), t[4].parse().unwrap(), t[5].parse().unwrap())),
             "orphan" => cur.orphans.push(t[1].clone()),
             "op" => cur.ops.push(t[1..].to_vec()),
+            "cthread" => {
+                let tid: usize = t[1].parse().unwrap();
+                let ops: Vec<Vec<String>> = t[2..].join(" ").split(" / ").map(|o| o.split_whitespace().map(|x| x.to_string()).collect()).collect();
+                cur.cthreads.push((tid, ops));
+            }
+            "csched" => cur.csched.extend(t[1..].iter().cloned()),
             _ => println!("unknown directive {}", t[0]),
         }
     }
